@@ -73,7 +73,11 @@ inline Result round_trip(V const& v, int d, int var)
 {
     using tag = typename Fmt::tag;
     Result r;
+    // what the image held before read_image must not matter ("yields an image with identical dimensions"): default-constructed for the
+    // stream destination, a LARGER previous picture for the file-name destination, a smaller one for the handle destination
     Img back;
+    if (d == D_NAME) back = Img(v.width() + 2, v.height() + 1);
+    else if (d != D_STREAM) back = Img(1, 1);
     auto guarded = [](auto f) -> std::string {
         try { f(); return ""; }
         catch (std::ios_base::failure const& e) { return std::string("ios_base::failure: ") + e.what(); }
